@@ -20,7 +20,7 @@ PROPERTY = "C18"
 FUNCTIONS = ["SelectChoiceValidator.validate", "ChoiceQuestion.__init__/_write_prompt", "Question.ask/_do_ask/_validate_attempts/_read_from_input/_write_error",
              "ConfirmationQuestion._get_default_normalizer", "Input.read_line/is_interactive", "IO.read_line/error/error_line"]
 PART = {}
-BOUNDS = {"quick": "validator: 6 choice lists (numeric-looking, duplicated, spaced, case-differing) x single/multi-select x every answer <= 3 chars over {a,b,A,0,1,2,-,space,comma}; dialogues: scripts of <= 3 lines from a 9-line menu x end-of-input after 0..3 lines x attempts {unlimited,1,2,3} x default none/index; "
+BOUNDS = {"quick": "validator: 7 choice lists (numeric-looking, duplicated, spaced inside and around, case-differing) x single/multi-select x every answer <= 3 chars over {a,b,A,0,1,2,-,space,comma}; dialogues: scripts of <= 3 lines from a 9-line menu x end-of-input after 0..3 lines x attempts {unlimited,1,2,3} x default none/index; "
                    "confirmation: 2 patterns x defaults x answers <= 3 chars over {y,Y,n,j,a,space}; non-interactive questions",
           "thorough": "answers <= 4 chars, scripts of 4 lines"}
 OUTSIDE = ["hidden questions / autocompletion (need a tty; `stty` is stubbed as unavailable)", "choice lists longer than 4 entries", "answers longer than stated"]
@@ -62,7 +62,7 @@ def _io(lines):
     return IO(Input(st), Output(out, PlainFormatter()), Output(err, PlainFormatter())), st, out, err
 
 
-LISTS = [["a", "b"], ["a", "b", "a"], ["1", "0", "x"], ["a b", "ab", "b"], ["A", "a", "2"], ["10", "b", "-1", "1"]]
+LISTS = [["a", "b"], ["a", "b", "a"], ["1", "0", "x"], ["a b", "ab", "b"], ["A", "a", "2"], ["10", "b", "-1", "1"], [" a", "b ", "a", "1 "]]
 ANS_ALPHA = "abA012- ,"
 WORD = "abcdefghijklmnopqrstuvwxyzABCDEFGHIJKLMNOPQRSTUVWXYZ0123456789_-"
 
